@@ -1,6 +1,11 @@
-//! `zc-cgen <idl-dir> <out-dir>` — runs /repo's code generator (zlink_codegen::generate_interface) over
-//! every `*.varlink` file of a directory and writes the generated Rust, untouched, to `<out-dir>/<stem>.rs`.
+//! `zc-cgen <idl-dir> <out-dir>` — runs /repo's code generator over every `*.varlink` file of a directory and
+//! writes the generated Rust, untouched, to `<out-dir>/<stem>.rs`.
 //! A description the parser rejects or the generator fails on is reported in `<out-dir>/<stem>.err`.
+//!
+//! The generator is used the way `generate_interfaces` and the command line tool use it for several
+//! descriptions: one `CodeGenerator` that has already generated another interface (the previous file)
+//! generates this one; what it appends for this interface is what is written out.  A generator whose
+//! output for an interface depends on what it generated before shows here.
 
 fn main() {
     let args: Vec<String> = std::env::args().collect();
@@ -13,12 +18,25 @@ fn main() {
         .filter(|p| p.extension().map(|x| x == "varlink").unwrap_or(false))
         .collect();
     names.sort();
-    for p in names {
+    let texts: Vec<String> = names.iter().map(|p| std::fs::read_to_string(p).unwrap()).collect();
+    for (i, p) in names.iter().enumerate() {
         let stem = p.file_stem().unwrap().to_string_lossy().to_string();
-        let text = std::fs::read_to_string(&p).unwrap();
+        let text = texts[i].clone();
+        let warm = texts[(i + texts.len() - 1) % texts.len()].clone();
         let out = std::panic::catch_unwind(|| {
             let iface = zlink::idl::Interface::try_from(text.as_str()).map_err(|e| format!("parse: {e}"))?;
-            zlink_codegen::generate_interface(&iface).map_err(|e| format!("generate: {e}"))
+            let fresh = zlink_codegen::generate_interface(&iface).map_err(|e| format!("generate: {e}"))?;
+            // the same interface from a generator that has generated the previous description before
+            let warmed = (|| -> Option<String> {
+                let w = zlink::idl::Interface::try_from(warm.as_str()).ok()?;
+                let head = zlink_codegen::generate_interface(&w).ok()?;
+                let mut g = zlink_codegen::CodeGenerator::new();
+                g.generate_interface(&w, false).ok()?;
+                g.generate_interface(&iface, false).ok()?;
+                let all = g.output();
+                all.strip_prefix(head.as_str()).map(|s| s.to_string())
+            })();
+            Ok::<String, String>(warmed.unwrap_or(fresh))
         });
         let (ok, body) = match out {
             Ok(Ok(code)) => (true, code),
